@@ -102,7 +102,7 @@ class Executor:
         about symbols that occur are added, which keeps satisfiable queries decidable)."""
         x = z3.Real('ax_x')
         i = z3.Int('ax_i')
-        out = sym.string_axioms() + self.global_axioms
+        out = sym.string_axioms() + self.global_axioms + [z3.Int('h:$trlen') >= 0]   # a trace has a length
         for nm in sorted(used or ()):
             # every Python list / dict has a non-negative length: axiom for each base heap constant
             if nm.endswith(':Llen') or nm.endswith(':Dlen'):
@@ -621,9 +621,20 @@ class Executor:
         inv_state = hv
         for f in self.eval_invs(spec, inv_state, entry, fr):
             inv_state.assume(f)
+        def iter_len(s_):
+            if itv is None:
+                return None
+            if itv[0] in ('list', 'rlist'):
+                return s_.heap.llen(itv[1].t)
+            if itv[0] == 'dict':
+                return s_.heap.dlen(itv[1].t)
+            return None
         if itv is not None:
             k = inv_state.loc[idx_name].t
             inv_state.assume(k >= 0)
+            if iter_len(inv_state) is not None:
+                # automatic invariant of every for-loop over a list/dict: the cursor never passes the end
+                inv_state.assume(k <= iter_len(inv_state))
         # ---- (3) one arbitrary iteration
         for cont, sb in self.loop_cond(n, inv_state.fork(), fr, itv, idx_name):
             if isinstance(cont, Exc):
@@ -635,6 +646,10 @@ class Executor:
                     if kind in ('next', 'continue'):
                         if itv is not None:
                             s2.loc[idx_name] = vint(s2.loc[idx_name].t + 1)
+                            if iter_len(s2) is not None:
+                                self.oblige(f'{lname}.preserved.cursor_within_bounds', s2,
+                                            s2.loc[idx_name].t <= iter_len(s2), 'loop_preserved',
+                                            {'clause': 'the loop cursor does not pass the end of the iterated collection'})
                         self.check_invs(spec, s2, entry, fr, lname + '.preserved', 'loop_preserved')
                         if spec.modifies is not None:
                             self.check_frame(lname + '.frame', start, s2, spec.modifies, fr, entry)
@@ -887,6 +902,10 @@ class Executor:
                 continue
             if key.startswith('F:'):
                 f = _fkey_name(key)
+                if self.specs.any_field_type(f) is None and '.' not in f:
+                    # a field no contract knows (introduced by a change of the code): outside the vocabulary
+                    # of the frame conditions; what it does to the specified behaviour is judged by the posts
+                    continue
                 allowed = [o for k, o, ff in locs if k == 'field' and ff == f]
                 if any(o is None for o in allowed):
                     continue
@@ -1330,7 +1349,8 @@ class Executor:
         return out
 
     def eq(self, a, b, st):
-        if isinstance(a, (ClassRef, BuiltinType)) or isinstance(b, (ClassRef, BuiltinType)):
+        if isinstance(a, (ClassRef, BuiltinType)) or isinstance(b, (ClassRef, BuiltinType)) or \
+                getattr(a, 'kind', None) == 'typeof' or getattr(b, 'kind', None) == 'typeof':
             return self.type_eq(a, b)
         return v_eq(a, b)
 
@@ -1340,10 +1360,16 @@ class Executor:
                 return z3.IntVal(self.table.class_ids[x.name])
             if isinstance(x, BuiltinType):
                 return z3.IntVal({'str': -1, 'int': -2, 'float': -3, 'list': -4, 'bool': -5, 'dict': -6}[x.name])
+            if isinstance(x, V) and x.kind == 'int' and x.n is not None:
+                return z3.If(x.n, 0, x.t)
             if isinstance(x, V) and x.kind == 'int':
                 return x.t
             if isinstance(x, V) and x.kind == 'none':
                 return z3.IntVal(0)
+            if getattr(x, 'kind', None) == 'typeof':
+                return cls_of(x.v.t)          # type(obj): the dynamic class id
+            if isinstance(x, V) and x.kind == 'int' and x.n is not None:
+                return z3.If(x.n, 0, x.t)
             raise Unsupported('type comparison')
         return tid(a) == tid(b)
 
@@ -1420,6 +1446,13 @@ class Executor:
                 if over is not None:
                     out.append((self.specs.eval_value(self, over, s1, fr, extra={'self': o}), s1))
                     continue
+                is_self = self.task_self is not None and o.t.eq(self.task_self.t)
+                if not o.ty.exact and not is_self and cls not in self.specs.final:
+                    overriders = [c for c in self.table.subclasses(cls) if c != cls and
+                                  name in self.table.classes[c].getters and not self.specs.is_opaque_class(c)]
+                    if overriders:
+                        raise Unsupported(f'property {cls}.{name} is overridden in {overriders}: dynamic dispatch needs a '
+                                          f'getter specification')
                 args = {info.node.args.args[0].arg: o}
                 for k2, p2, s2 in self.run_function(info, cls, args, s1, (fr.depth if fr else 0) + 1):
                     out.append((Exc(p2) if k2 == 'raise' else p2, s2))
